@@ -566,7 +566,7 @@ pub fn run(cx: &mut Ctx) {
     cx.check(
         "tables-vs-vectors",
         RULE,
-        Budget { quick: 1_200_000, thorough: 12_000_000, max_len: 1400 },
+        Budget { quick: 1_200_000, thorough: 1_500_000, max_len: 1400 },
         |u, st| {
             let (c, back, rep) = gen_case(u, max_n);
             let n = c.starts.len();
